@@ -3,6 +3,7 @@ import PgModel.Json
 import PgModel.Evo
 import PgModel.EvoPerm
 import PgModel.EvoNum
+import PgModel.EvoProp
 open Pg Pg.C14
 
 def qOfJ : J → Option Q
@@ -107,6 +108,8 @@ def primOfJ (g : GSpec) (fuel : Nat) : List J → Option Op
   | [.str "mutSwap"] => some (mutSwap g)
   | [.str "selRandom", n, .bool r] => do pure (selRandom (← nspecOfJ n) r)
   | [.str "selSample", n] => do pure (selSample (← nspecOfJ n))
+  | [.str "selProportional", n, .arr ws] => do
+      pure (selProportional (← nspecOfJ n) (cycleWeights (← ws.mapM qOfJ)))
   | [.str "selTop", n] => do pure (selTop (← nspecOfJ n))
   | [.str "selBottom", n] => do pure (selBottom (← nspecOfJ n))
   | [.str "selFirst", n] => do pure (selFirst (← nspecOfJ n))
@@ -152,6 +155,7 @@ partial def exprOfJ (g : GSpec) (fuel : Nat) : J → Option OpExpr
 def errName : Err → String
   | .desync => "desync" | .fuel => "fuel" | .unmodelled => "unmodelled" | .index => "IndexError"
   | .key => "KeyError" | .value => "ValueError" | .runtime => "RuntimeError" | .type => "TypeError"
+  | .zerodiv => "Other:ZeroDivisionError"
 
 def indOfJ (g : GSpec) (uid : Nat) (j : J) : Option Ind := do
   let d ← dnaOfJ g j
